@@ -1411,7 +1411,10 @@ def parse_tree(
     length = len(text)
 
     while count < length:
-        mode_end = text.index(b" ", count)
+        try:
+            mode_end = text.index(b" ", count)
+        except ValueError as exc:
+            raise ObjectFormatException("Missing space after mode") from exc
         mode_text = text[count:mode_end]
         if strict and mode_text.startswith(b"0"):
             raise ObjectFormatException(f"Invalid mode {mode_text!r}")
@@ -1423,7 +1426,10 @@ def parse_tree(
         mode = int(mode_text, 8)
         if mode > 0xFFFFFFFF:
             raise ObjectFormatException(f"Invalid mode {mode_text!r}")
-        name_end = text.index(b"\0", mode_end)
+        try:
+            name_end = text.index(b"\0", mode_end)
+        except ValueError as exc:
+            raise ObjectFormatException("Missing NUL after name") from exc
         name = text[mode_end + 1 : name_end]
 
         if sha_len is None:
